@@ -21,7 +21,7 @@ def gen_spec(rng, size=None, features=None):
     feats = features if features is not None else {
         'hdrs', 'steps', 'multi', 'gensrc', 'copy', 'alias', 'cmd', 'test',
         'extra', 'default', 'install', 'always', 'subdirs', 'shared', 'implicit', 'pch', 'prelib',
-        'versioned'}
+        'versioned', 'cmds'}
     n = size or rng.randint(4, 22)
     files = {}
     nodes = []
@@ -175,6 +175,10 @@ def gen_spec(rng, size=None, features=None):
                   'files': rng.sample(cands, rng.randint(0, min(1, len(cands)))),
                   'extra': pick_extra(),
                   'env': rng.choice([None, 'c%d' % i, 'a b %d' % i])}
+            if 'cmds' in feats and rng.random() < 0.4:
+                # several commands in one step: shell state set by an earlier command (here
+                # the working directory) must still hold for the later ones
+                nd['chdir'] = 'wd%d' % i
         elif kind == 'pch':
             if 'pch' not in feats:
                 continue
@@ -300,8 +304,13 @@ def render(spec, stub='vrec'):
             cmd = [repr(stub), repr('--id=%d' % i)] + [_ref(r) for r in nd['refs']]
             files = ', files=[%s]' % ', '.join(_ref(r) for r in nd['files']) if nd['files'] else ''
             envs = ", environment={'VF_E': %r}" % nd['env'] if nd.get('env') else ''
-            L.append('%s = command(%r, cmd=[%s]%s%s%s)' % (v, nd['name'], ', '.join(cmd), files,
-                                                          envs, extra))
+            if nd.get('chdir'):
+                L.append("%s = command(%r, cmds=[['mkdir', '-p', %r], ['cd', %r], [%s]]%s%s%s)"
+                         % (v, nd['name'], nd['chdir'], nd['chdir'], ', '.join(cmd), files, envs,
+                            extra))
+            else:
+                L.append('%s = command(%r, cmd=[%s]%s%s%s)' % (v, nd['name'], ', '.join(cmd), files,
+                                                              envs, extra))
         elif k == 'test':
             if nd['exe'] is not None:
                 L.append('test(n%d)' % nd['exe'])
